@@ -168,8 +168,11 @@ def run(ctx):
                               bytes(4), b"\x00\x00\x00\x01", b"\x80\x00\x00\x00", b"\xff\xff\xff\xff"])
             # the parts arrive in whatever bytes-like form the caller holds them: bytes, a subclass, a slice of a receive buffer
             form = [bytes, bytes, gen.Octets, bytearray, memoryview][len(fe) % 5]
+            # ... and the CRC-32 part also as the number the signature allows (the block classes hand it over that way): the four
+            # octets read big-endian, zero included
+            as_int = len(fe) % 3 == 0
             fe9(data, dbsn, m.value, c32, CRC9.calculate_from_parts(form(data) if form is not memoryview else data, dbsn, m,
-                                                                    crc32=None if c32 is None else form(c32)))
+                                                                    crc32=None if c32 is None else (int.from_bytes(c32, "big") if as_int else form(c32))))
         elif k == "16":
             data = fill(rng.choice([10, 10, rng.randrange(0, 40)]))
             m = rng.choice(masks)
